@@ -295,8 +295,7 @@ class PropertyRun:
                 continue
             self.consistency[rep.label] = {"evaluated": ev, "skipped_precondition": sk, "undecided": und, "violations": len(bad)}
             for b in bad[:2]:
-                self.crashes.append(f"prover/CPython inconsistency: every obligation of {rep.label} was discharged but the real function breaks "
-                                    f"the contract on a concrete input: {str(b)[:700]}")
+                self.__dict__.setdefault("_consistency_bad", []).append((rep.label, str(b)[:700]))
 
     def materialize(self, rep, ob):
         """LightOb -> (full report, real Obligation with z3 terms) by regenerating its alternative in this process"""
@@ -363,6 +362,13 @@ class PropertyRun:
                 self._judge(full, ob, k, st, findings, RP, searched)
                 for v in self.violations[n_before:]:
                     v["function"] = rep.label
+        # prover / CPython consistency.  Verification is modular: a function whose own obligations hold can still misbehave natively when a
+        # CALLEE breaks its contract, so a concrete failure is an inconsistency only when every obligation of this run was discharged.
+        for label, what in getattr(self, "_consistency_bad", []):
+            if self.violations or self.undecided or self.known:
+                self.notes.append(f"{label} breaks its contract natively as well (consequence of the failed obligation(s) above): {what[:300]}")
+            else:
+                self.crashes.append(f"prover/CPython inconsistency: every obligation of this run was discharged but {label} breaks its contract on a concrete input: {what}")
         # bounded stand-ins
         for b in self.bounded:
             for e in b.errors:
@@ -420,10 +426,10 @@ class PropertyRun:
         )
 
     def exit_code(self):
+        if self.violations:
+            return EXIT_VIOLATION  # a violation with a replay stands, whatever else went wrong in the run (crashes are printed as well)
         if self.crashes:
             return EXIT_CRASH
-        if self.violations:
-            return EXIT_VIOLATION
         if self.undecided:
             return EXIT_UNDECIDED
         return EXIT_OK
